@@ -1,6 +1,6 @@
 (** * C13 — a key-range scan returns exactly the rows in the range.
     Only statements, each closed by [exact], with its assumptions printed. *)
-From RL Require Import Model.RangeScan Proofs.RangeP.
+From RL Require Import Model.RangeScan Proofs.RangeP Model.RangeAnalysis Proofs.RangeAnalysisP.
 From Coq Require Import Lia.
 Open Scope Z_scope.
 
@@ -36,6 +36,14 @@ Proof.
   - repeat constructor; cbn; lia.
 Qed.
 
+(** from the WHERE condition to the range (planner/rules/range.rs: analyze_range and the side condition of
+    filter-scan, which replaces the whole filter by the scan range): whenever a condition is pushed,
+    the range denotes exactly the rows with an INT key on which the condition is TRUE *)
+Theorem pushed_condition_and_range_agree : forall e k r, pushed e = Some (k, r) ->
+  forall row z, row k = DI32 z -> rex_true e row = in_range r z.
+Proof. exact pushed_range_is_exact. Qed.
+
 Print Assumptions range_scan_returns_exactly_the_range.
 Print Assumptions batch_mask_is_pointwise.
 Print Assumptions mask_on_unsorted_column_refuted.
+Print Assumptions pushed_condition_and_range_agree.
